@@ -40,7 +40,11 @@ from vlib.core import Stage, StopStage as _StopStage, Violation, sha  # noqa: E4
 
 
 def load_prop(pid: str):
-    return importlib.import_module(f"vlib.props.{pid.lower()}")
+    module = importlib.import_module(f"vlib.props.{pid.lower()}")
+    from vlib import sut
+
+    sut.trace_logging()
+    return module
 
 
 # ------------------------------------------------------------------------------------------------- worker
@@ -138,7 +142,8 @@ class Recorder:
     def take_failure(self):
         if self.best_failure is not None:
             _, case, clause, message, stage_name = self.best_failure
-            self.failures.append({"stage": stage_name, "case": case, "clause": clause, "message": message})
+            self.failures.append({"stage": stage_name, "case": case, "clause": clause, "message": message,
+                                  "shard": int(os.environ.get("VERIF_SHARD", "0") or 0)})  # fmt: skip
             self.best_failure = None
             self.after_failure = 0
 
@@ -247,8 +252,10 @@ def worker_main(args):
         if args.wall:
             deadline = time.monotonic() + args.wall
         os.environ["VERIF_SHARD"] = str(args.shard)
-        if args.shard == 0:
-            out["corpus"] = replay_corpus(prop)
+        if args.shard < 4:
+            # shard k replays the corpus entries recorded under environment k (mod 4): plain, caches preheated,
+            # warnings as errors, logging at DEBUG (see vlib/sut.py); with fewer than 4 shards the rest stays with shard 0
+            out["corpus"] = replay_corpus(prop, args.shard, min(args.nshards, 4))
         for stage in prop.STAGES:
             if args.tier not in stage.tiers:
                 continue
@@ -265,7 +272,7 @@ def worker_main(args):
     return 0
 
 
-def replay_corpus(prop):
+def replay_corpus(prop, shard=0, nshards=1):
     """re-execute the committed regression cases (shrunk reproducers, sentinels); returns failures"""
     results = []
     directory = os.path.join(CORPUS_DIR, prop.ID)
@@ -277,8 +284,12 @@ def replay_corpus(prop):
             continue
         with open(os.path.join(directory, name), encoding="utf-8") as handle:
             entry = json.load(handle)
+        wanted = entry.get("shard", 0) % 4
+        if (wanted if wanted < nshards else 0) != shard:
+            continue
         stage = stages[entry["stage"]]
-        record = {"file": f"corpus/{prop.ID}/{name}", "stage": stage.name, "case": entry["case"], "clause": None}
+        record = {"file": f"corpus/{prop.ID}/{name}", "stage": stage.name, "case": entry["case"], "clause": None,
+                  "shard": shard}  # fmt: skip
         try:
             stage.check(entry["case"])
         except Violation as violation:
@@ -398,7 +409,8 @@ def parent_main(args):
     for rec in corpus:
         if rec["clause"] is not None:
             failures.append({"stage": rec["stage"], "case": rec["case"], "clause": rec["clause"],
-                             "message": rec.get("message", "") + f" (regression case {rec['file']})"})  # fmt: skip
+                             "message": rec.get("message", "") + f" (regression case {rec['file']})",
+                             "shard": rec.get("shard", 0)})  # fmt: skip
 
     stage_defs = {s.name: s for s in prop.STAGES}
     evaluations = sum(a["evaluations"] for a in per_stage.values())
@@ -448,7 +460,8 @@ def parent_main(args):
     os.makedirs(REPLAY_DIR, exist_ok=True)
     for sig, failure in violations:
         doc = {"property": pid, "stage": failure["stage"], "case": failure["case"], "clause": failure["clause"],
-               "message": failure["message"], "signature": sig, "tier": tier, "seed": seed}  # fmt: skip
+               "message": failure["message"], "signature": sig, "tier": tier, "seed": seed,
+               "shard": failure.get("shard", 0)}  # fmt: skip
         path = os.path.join(REPLAY_DIR, f"{pid}-{sha(doc['case'])[:12]}.json")
         with open(path, "w", encoding="utf-8") as handle:
             json.dump(doc, handle, ensure_ascii=False, indent=1, default=str)
@@ -503,9 +516,11 @@ def parent_main(args):
 
 def replay_main(args):
     pid = args.pid.upper()
-    prop = load_prop(pid)
     with open(args.replay, encoding="utf-8") as handle:
         doc = json.load(handle)
+    # the environment of the shard that found the case (logging, warnings filter, preheated caches: vlib/sut.py)
+    os.environ["VERIF_SHARD"] = str(doc.get("shard", 0))
+    prop = load_prop(pid)
     stage = {s.name: s for s in prop.STAGES}[doc["stage"]]
     try:
         stage.check(doc["case"])
